@@ -907,7 +907,7 @@ fn build_def(raw: &RawDef) -> DefCase {
     let env = env();
     let ctx = pick_w(raw.ctx, &[(5, 0u8), (3, 1), (3, 2)]);
     let quality = pick_w(raw.quality, &[(11, Quality::Valid), (5, Quality::OneBad), (7, Quality::Chaotic)]);
-    let form = pick_w(raw.form, &[(9, 0u8), (9, 1), (4, 2), (4, 3), (1, 4)]);
+    let form = pick_w(raw.form, &[(9, 0u8), (9, 1), (4, 2), (4, 3), (1, 4), (2, 5)]);
     let proj = form == 3;
     // --- macro library
     let mut nmacros = raw.nmacros as usize;
@@ -1001,13 +1001,21 @@ fn build_def(raw: &RawDef) -> DefCase {
             form_name = match form {
                 0 => "single",
                 1 => "pipeline",
+                5 => "stackprog",
                 _ => "macro",
             };
+            if form == 5 {
+                // a deep stack first, so that every later stack instruction really executes
+                def.push_str(if raw.layout % 2 == 0 { "stack push=1,2,3,4 | stack push=4,3,2,1 | " } else { "push v_1 v_2 v_3 v_4 | stack push=2,2 | " });
+            }
             for (i, s) in raw.steps.iter().take(nsteps).enumerate() {
                 if i > 0 {
                     def.push_str(if quality == Quality::Valid { pick_w(raw.seps[i], &[(10, " | "), (2, "|"), (1, " > "), (1, " < "), (1, "\n| ")]) } else { SEPS[pick(raw.seps[i], SEPS.len())] });
                 }
-                let text = if form == 2 && i == 0 && !names.is_empty() {
+                let text = if form == 5 {
+                    let n = pick_w(s.opsel, &[(9, "stack"), (2, "push"), (2, "pop"), (1, "addone"), (1, "axisswap")]);
+                    b.step_named(n, s)
+                } else if form == 2 && i == 0 && !names.is_empty() {
                     let n = names[pick(s.op, names.len())].clone();
                     b.step_named(&n, s)
                 } else {
